@@ -102,6 +102,14 @@ def chk_corr(inp):
                 if not close(c[:, 0], want, 1e-6) or not close(c[:, 1], [nx / 2., ny / 2.], 1e-6):
                     return bad("correlation centroid of an image displaced by (sy=%d,sx=%d) is not displaced by it from the array centre (shape %dx%d, padding %d)" % (sy, sx, ny, nx, pad),
                                numpy.asarray(c).tolist(), want)
+    # positive scaling of image and reference leaves the correlation centroid unchanged
+    ref = numpy.zeros((10, 12)); ref[4:6, 5:7] = 1.0; ref += 0.01
+    im = numpy.roll(ref, (1, -2), (0, 1))
+    c1 = CN.correlation_centroid(numpy.array([im, ref]), ref.copy(), threshold=0.5, padding=2)
+    for kf in (7.5, 1e-3):
+        c2 = CN.correlation_centroid(numpy.array([kf * im, kf * ref]), kf * ref, threshold=0.5, padding=2)
+        if not close(c1, c2, 1e-9):
+            return bad("correlation centroid changes when image and reference are multiplied by %g" % kf, numpy.asarray(c2).tolist(), numpy.asarray(c1).tolist())
     # odd sizes (the array centre n/2 is a half-integer: the reference lands within half a pixel of it; the DISPLACEMENT is exact)
     for (ny, nx) in ((9, 9), (11, 7), (9, 12), (7, 10)):
         ref = numpy.zeros((ny, nx)); ref[ny // 2 - 1:ny // 2 + 2, nx // 2 - 1:nx // 2 + 2] = 1.0
